@@ -112,6 +112,28 @@ pub fn all_matches(
     found
 }
 
+/// The files the FIRST lookup round can pick for (`importer_name`, `url`): the url joined to the
+/// importer's (lexical) directory, raw and normalised, in every base, every candidate name.  If
+/// this set is exactly one file, every reading of the rule loads it, whatever the unchanged url
+/// would also match elsewhere ("the URL is tried relative to the importing file first").
+pub fn relative_matches(fs: &SimFs, bases: &[String], importer_name: &str, url: &str, import: bool) -> BTreeSet<String> {
+    let idir = importer_name.rfind('/').map_or("", |p| &importer_name[..=p]);
+    let joined = format!("{idir}{url}");
+    let mut found = BTreeSet::new();
+    for u in [joined.clone(), normalize(&joined)] {
+        for grouped in [true, false] {
+            for c in candidates(&u, import, grouped) {
+                for b in bases {
+                    if let Some(p) = fs.resolve(b, &c) {
+                        found.insert(p);
+                    }
+                }
+            }
+        }
+    }
+    found
+}
+
 #[cfg(test)]
 mod tests {
     use super::*;
